@@ -419,7 +419,13 @@ def simplify_unitary(expr: e.Expr, t_name: str,
                     continue
                 else:
                     new_term *= o
-            return simplify_term_unitary(new_term.terms[0])
+            # the remaining product might be a sum, e.g. 1 * (a + b)
+            if len(new_term) == 1:
+                return simplify_term_unitary(new_term.terms[0])
+            new_expr = e.Expr(0, **term.assumptions)
+            for t in new_term.terms:
+                new_expr += simplify_term_unitary(t)
+            return new_expr
         # could not find simplification -> return
         return term
 
